@@ -237,6 +237,16 @@ def run(P, rep, tier):
     from ..lib_exprparse import r_conversion_sites
     rep.rule('R02.9', 'implicit conversions at use sites that involve floating types: arguments converted to the parameter type, float arguments passed through ... promoted to double whatever type object carries the float type (shared with R01.4)', floor=3)
     r_conversion_sites(P, rep, 'R02.9')
+    from ..report import Report, reissue
+    from . import c07, c20
+    rep.rule('R02.10', 'long double values live on the x87 register stack: every gen_expr / gen_stmt / gen_addr arm leaves it balanced (+1 only for a long double result), so that no computation runs into a full register stack and turns into NaN (same obligations as C20 R20.1, R20.2, R20.7)', floor=80)
+    sub = Report('C20')
+    c20.run(P, sub, tier)
+    reissue(rep, 'R02.10', sub, 'later long double arithmetic would yield NaN: ', keep=lambda o: o['key'].split(':', 1)[0] in ('R20.1', 'R20.2', 'R20.7'))
+    rep.rule('R02.11', 'floating constant expressions: the folder evaluates floating operands, conditions and conversions as floating values in the operand\'s type (same obligations as C07)', floor=100)
+    sub = Report('C07')
+    c07.run(P, sub, tier)
+    reissue(rep, 'R02.11', sub, 'a floating constant expression would have another value than at run time: ')
     # && / ||: each operand is tested at its own type (a floating right operand next to an integer left operand, and vice versa)
     from .c03 import r_logic
     rep.rule('R02.8', '&& and ||: each operand is compared with zero in its own register class and width (mixed integer/floating operands), left operand first, right operand only when needed, result int 0/1', floor=8)
